@@ -16,9 +16,7 @@ void harness(void)
     long w0 = xv_sw_calls, h0 = xv_hs_calls, t0 = xv_tx_off;
     int rv = btls_send(s, buf, len);
 #ifdef BT_HUGE
-    if (xv_sw_calls == w0 + 1 && xv_sw_num < 0 && rv == -1 && xv_errno == EPROTO) XV_CANARY("len 2^31..: SSL_write entered with a NEGATIVE num, connection killed with EPROTO");
-    if (xv_sw_calls == w0 + 1 && xv_sw_num == 0 && rv == -1 && xv_errno == EPIPE) XV_CANARY("len 2^32: SSL_write entered with num 0, connection declared closed");
-    if (xv_sw_calls == w0 + 1 && xv_sw_num == 7 && rv == 7) XV_CANARY("len 2^32 + 7: seven bytes offered to OpenSSL");
+    if (xv_sw_calls == w0 + 1 && xv_sw_num == 2147483647 && rv >= 1) XV_CANARY("len above INT_MAX: INT_MAX bytes offered to OpenSSL, some accepted");
 #else
     if (rv >= 1 && (size_t)rv == len && xv_hs_calls == h0) XV_CANARY("ready: everything accepted");
 #endif
